@@ -252,6 +252,19 @@ def work(arg):
     return out
 
 
+def run_many(pid, seed, n, nproc=8):
+    shard = max(25, n // (nproc * 2))
+    rng = random.Random(seed)
+    jobs = []
+    k = 0
+    while k < n:
+        jobs.append((pid, rng.getrandbits(40), min(shard, n - k)))
+        k += shard
+    with multiprocessing.get_context('fork').Pool(nproc) as pool:
+        results = pool.map(work, jobs, chunksize=1)
+    return [d for out in results for d in out]
+
+
 def compare_digests(ctx, digs):
     outs = ctx.model([d['call'] for d in digs])
     dis = []
@@ -292,7 +305,7 @@ def compare_digests(ctx, digs):
 
 def explore(ctx, res, pid):
     rng = ctx.rng
-    n = 900 if ctx.tier == 'quick' else 30000
+    n = 3000 if ctx.tier == "quick" else 60000
     nproc = 8
     res.rule = ('real MetadataProviderServer / DataProviderServer under the deterministic scheduler; scenarios: init request at position 0 / later / absent / repeated, '
                 'with accepted, old, refused or malformed version parameters and initialize returning / raising; 0..7 requests of all 14 Metadata methods (Data: SUB / USB) '
